@@ -209,6 +209,10 @@ func (c *Chooser) Blob(n int, alphabet string) []byte {
 				b = 0x01
 			case 2:
 				b = 0x80 | byte(v)
+			case 3:
+				b = 0x80 | byte(v)&0x3f // only UTF-8 continuation octets: no rune ever starts
+			case 4:
+				b = byte(sub >> 40) // one octet, repeated
 			default:
 				b = byte(v)
 			}
@@ -227,6 +231,10 @@ func (c *Chooser) Blob(n int, alphabet string) []byte {
 				} else {
 					b = byte(v >> 8)
 				}
+			case 3:
+				b = 0x80 | byte(v)&0x3f // only UTF-8 continuation octets: no rune ever starts
+			case 4:
+				b = byte(sub >> 40) // one octet, repeated
 			default:
 				b = byte(v)
 			}
